@@ -1,4 +1,3 @@
-(* WIP *)
 (* C14 — proofs: for every history of operations the life-cycle model never violates the C14
    monitor (session present, resume keeps, clean start drops, taken-over connection silent). *)
 From MV Require Import Base.Val Session.Lifecycle Session.LifeSpec Session.LifeBase Session.LifeInv Session.LifeProofs13.
